@@ -118,10 +118,10 @@ def obligations(tier, seed):
         for t1 in range(3):
             obs.append(Ob(
                 name="history_%s_%s" % (KINDS[t1], "method" if m else "function"), params=[("c", "int")],
-                pre=["0 <= c < %d" % len(TABLE)],
+                pre=["0 <= c < %d" % (len(TABLE) if tier != "quick" else len([x for x in TABLE if x[2] <= 2]))],
                 body="H.history_idx(%d, c, %d, {ACTIVE}, %r)" % (t1, m, tier == "quick"), witness=(TABLE.index((0, 0, 1, 4, 4, 0)),), kind="F",
                 bounds="first truth %s, function target is a %s; history of 1..%d syncs with solver-chosen truth kinds, all 25 pre-state "
                 "combinations, 2 interface descriptions; exhaustive over the configuration table"
-                % (KINDS[t1], "method" if m else "top-level function", 3),
+                % (KINDS[t1], "method" if m else "top-level function", 2 if tier == "quick" else 3),
                 timeout=280 if tier == "quick" else 2400, path_timeout=120, funcs=FUNCS))
     return obs
